@@ -161,8 +161,9 @@ def seeded(ctx, rnd, thorough):
         if flen > 1:
             scheds.append([flen - 1, 1])
             scheds.append([1] * min(flen, 30) + [flen])
-        if flen <= 600 or thorough:
+        if flen <= 600 or thorough or flen == 4024:
             scheds.append([1] * flen)
+            scheds.append([2] * (flen // 2 + 1))
         for _ in range(12 if thorough else 4):
             rest, s = flen, []
             while rest:
@@ -191,6 +192,9 @@ def seeded(ctx, rnd, thorough):
         for cut in sorted({0, 1, 2, 3, 4, 23, 24, flen - 1} & set(range(0, flen))):
             for end in ("eof", "err"):
                 cases.append(run_recv(body, [cut] if cut else [], end))
+            if cut:
+                cases.append(run_recv(body, [cut], "timeout-once"))
+                cases.append(run_recv(body, [cut], "timeout-once", tmo=5))
     for mlen in [1, 2, 3, 24, 28, 100, 256, 500, 4024, 4096, 4097, 5000, 9001] + ([65535] if thorough else []):
         pats = [[mlen], [1, mlen], [1, 1, mlen], [mlen // 2 or 1, mlen], [1] * min(mlen, 40) + [mlen]]
         for _ in range(10 if thorough else 4):
